@@ -620,6 +620,34 @@ func init() {
 					}
 					add(0x10FFFF)
 				}
+				if k == 3 || k == 4 {
+					// an escape (or a multi-byte character) at the end of what the stream decoder reads
+					// first (511/512 bytes, then 1023/1024): document lengths around the boundary, with
+					// nothing or little behind the escape, read in one piece and in pieces that end there
+					base := 505
+					if k == 4 {
+						base = 1017
+					}
+					var blits []string
+					for total := base; total <= base+16; total++ {
+						for _, esc := range []string{uesc("d800"), uesc("dc00"), uesc("d83d") + uesc("de00"), uesc("00e9"), "\\n", "\u00e9", "\U0001F600", uesc("d83d") + "x"} {
+							for _, tail := range []string{"", "b", "bcdefg"} {
+								n := total - 2 - len(esc) - len(tail)
+								if n < 0 {
+									continue
+								}
+								blits = append(blits, `"`+strings.Repeat("a", n)+esc+tail+`"`)
+							}
+						}
+					}
+					for i, L := range blits {
+						if !stdjson.Valid([]byte(L)) || !utf8.ValidString(L) {
+							continue
+						}
+						c17DecodeLit(c, 500000+i, L, []int{0, 1 << 20, 512, 511, 256})
+					}
+					c.Obs("refill_boundary_literals", int64(len(blits)))
+				}
 				// longer literals so that escapes straddle the 8-byte window and the stream chunks
 				r := c.RNG(1)
 				for i := 0; i < 24; i++ {
